@@ -52,6 +52,20 @@ type sub struct {
 	ctx  context.Context
 	cond func(m *am.Machine) bool // holds now
 	held bool                      // held at subscription or at the end of a later transition
+	query    bool                  // WhenQuery: judged at the end of transitions only, from the next one on
+	ctxBound bool                  // subscribed with a context that is canceled right after subscribing
+}
+
+// acc counts the accepted, non-check transitions (the only ones that process subscriptions)
+type acc struct {
+	*am.TracerNoOp
+	n *int
+}
+
+func (t *acc) TransitionEnd(tx *am.Transition) {
+	if tx.IsAccepted.Load() && !tx.Mutation.IsCheck {
+		*t.n++
+	}
 }
 
 func closed(ch <-chan struct{}) bool {
@@ -88,6 +102,8 @@ func main() {
 						panic(err)
 					}
 				}
+				nTx := 0
+				m.BindTracer(&acc{TracerNoOp: &am.TracerNoOp{Id: "verif-acc"}, n: &nTx})
 				apply := func(o op) {
 					if o.add {
 						m.Add1(o.name, nil)
@@ -114,14 +130,34 @@ func main() {
 					add(fmt.Sprintf("WhenTicks(B,%d)", d), m.WhenTicks("B", int(d), nil), func(m *am.Machine) bool { return m.Tick("B") >= tickB+d })
 				}
 				add("WhenTime(A,B; now+1,now+2)", m.WhenTime(am.S{"A", "B"}, am.Time{tickA + 1, tickB + 2}, nil), func(m *am.Machine) bool { return m.Tick("A") >= tickA+1 && m.Tick("B") >= tickB+2 })
+				// several WhenQuery subscriptions that become true in the same transition, behind one
+				// that never matches
+				isA := func(c am.Clock) bool { return am.IsActiveTick(c["A"]) }
+				subs = append(subs, &sub{desc: "WhenQuery(never)", ch: m.WhenQuery(func(c am.Clock) bool { return false }, nil), cond: func(m *am.Machine) bool { return false }, query: true})
+				for i := 1; i <= 3; i++ {
+					subs = append(subs, &sub{desc: fmt.Sprintf("WhenQuery(A active) #%d", i), ch: m.WhenQuery(isA, nil), cond: func(m *am.Machine) bool { return m.Is1("A") }, query: true})
+				}
+				// subscriptions whose context ends right away: released by the next transition
+				ctx2, cancel2 := context.WithCancel(context.Background())
+				subs = append(subs, &sub{desc: "When(A, ctx)", ch: m.When1("A", ctx2), cond: func(m *am.Machine) bool { return m.Is1("A") }, held: m.Is1("A"), ctxBound: true})
+				subs = append(subs, &sub{desc: "WhenNot(A, ctx)", ch: m.WhenNot1("A", ctx2), cond: func(m *am.Machine) bool { return m.Not1("A") }, held: m.Not1("A"), ctxBound: true})
+				subs = append(subs, &sub{desc: "WhenTime(A, now+9, ctx)", ch: m.WhenTime1("A", tickA+9, ctx2), cond: func(m *am.Machine) bool { return false }, ctxBound: true})
+				subs = append(subs, &sub{desc: "WhenQuery(never, ctx)", ch: m.WhenQuery(func(c am.Clock) bool { return false }, ctx2), cond: func(m *am.Machine) bool { return false }, query: true, ctxBound: true})
+				cancel2()
 				sctx := m.NewStateCtx("B")
 				ctxTick := m.Tick("B")
 				wasActive := m.Is1("B")
 				bad := ""
+				seenTx := nTx
 				check := func(step string) {
+					ranTx := nTx > seenTx
+					seenTx = nTx
 					for _, s := range subs {
-						if s.cond(m) {
+						if s.cond(m) && (!s.query || ranTx) {
 							s.held = true
+						}
+						if s.ctxBound && ranTx {
+							s.held = true // its context ended and a transition has run since
 						}
 						if closed(s.ch) != s.held && bad == "" {
 							bad = fmt.Sprintf("%s after %s: closed=%v although the condition held=%v", s.desc, step, closed(s.ch), s.held)
